@@ -1598,7 +1598,8 @@ theorem c01_shape_Overlay_TransmitMsg :
    ["treeStorage.getAndRefresh", "verifPoint:tm.miss", "o.requestTree", "verifPoint:tm.found",
      "transmitMux.Lock", "defer:transmitMux.Unlock", "instancesLock.Lock", "To.ID", "To.ID",
      "o.cleanTreeStorage", "instancesLock.Unlock", "o.TreeNodeFromTree",
-     "o.newTreeNodeInstanceFromToken", "treeStorage.Set", "To.ID", "o.getConfig",
+     "o.newTreeNodeInstanceFromToken", "treeStorage.Set", "o.hasPendingMsg",
+     "o.checkPendingMessages", "To.ID", "o.getConfig",
      "serviceManager.newProtocol", "instancesLock.Lock", "o.nodeDelete", "instancesLock.Unlock",
      "go{", "defer{", "tni.Token", "ServiceFactory.Name", "}", "pi.Dispatch", "tni.Token",
      "ServiceFactory.Name", "}", "o.RegisterProtocolInstance", "pi.ProcessProtocolMsg"] := rfl
@@ -1667,6 +1668,32 @@ theorem c01_shape_Overlay_SendToTreeNode :
    ["from.ChangeTreeNodeID", "if:(c!=nil)", "tokenTo.ID", "io.Wrap", "if:(err!=nil)",
      "return:0,xerrors.Errorf(\"\",err)", "if:(confMsg!=nil)", "server.Send", "else",
      "server.Send", "if:(err!=nil)", "return:sentLen,err"] := rfl
+
+theorem c01_shape_router_Router_Send :
+    Shapes.network_router_Router_Send =
+   ["msgTraffic.updateTx", "ServerIdentity.GetID", "e.GetID", "GetID().Equal", "MessageType",
+     "r.Dispatch", "Marshal", "e.GetID", "r.connection", "r.connect", "c.Send", "r.connect",
+     "c.Send"] := rfl
+
+theorem c01_shape_router_Router_connect :
+    Shapes.network_router_Router_connect =
+   ["host.Connect", "c.Send", "c.Close", "verifC10Point", "r.registerConnection", "c.Close",
+     "verifC10Point", "r.launchHandleRoutine"] := rfl
+
+theorem c01_shape_router_Router_registerConnection :
+    Shapes.network_router_Router_registerConnection =
+   ["r.Lock", "defer:r.Unlock", "if:r.isClosed", "return:xerrors.Errorf(\"\",ErrClosed)",
+     "remote.GetID", "if:okc", "remote.GetID", "remote.GetID", "return:nil"] := rfl
+
+theorem c01_shape_router_Router_connection :
+    Shapes.network_router_Router_connection =
+   ["r.Lock", "defer:r.Unlock", "if:(len(arr)==0)", "return:nil", "return:arr[]"] := rfl
+
+theorem c01_shape_Overlay_Process :
+    Shapes.overlay_Overlay_Process =
+   ["MsgType.Equal", "o.handleConfigMessage", "protoIO.getByPacketType", "io.Unwrap",
+     "o.handleRequestTree", "o.handleSendTree", "o.handleSendTreeMarshal",
+     "o.handleRequestRoster", "o.handleSendRoster", "network.MessageType", "o.TransmitMsg"] := rfl
 
 
 end C01
